@@ -15,12 +15,15 @@ i = s.index("### 0.7 Seeded property-breaking changes")
 j = s.index("### 0.8 Behaviour-preserving rewrites")
 new = f'''### 0.7 Seeded property-breaking changes and the checks that catch them
 
-{len(rows)} changes written by fresh sub-agents that saw only one property's text and a scratch worktree, in four rounds
-(`seeded/Cxx`, `Cxxb`, `Cxxc`, `Cxxd`): the second was told what the first had done and asked for a different clause / site /
-trigger; the third was shown both earlier changes and asked to aim at the **glue** (construction paths and entry points,
-parameter handling and defaults, helper modules such as the motif generators, representation conversions, behaviour after
-several calls on one object); the fourth at **boundaries and numerics** (inclusive/exclusive ends, first / last / only
-element, N = 0 or 1, largest admissible parameters, int versus float arithmetic and overflow, ordering and tie-breaking).
+{len(rows)} changes written by fresh sub-agents that saw only one property's text and a scratch worktree, in six rounds
+(`seeded/Cxx`, `Cxxb` … `Cxxf`). Round two was told what round one had done and asked for a different clause / site /
+trigger; every later round was shown what all earlier ones need in order to manifest and was given a theme: round three the
+**glue** (construction paths and entry points, parameter handling and defaults, helper modules such as the motif generators,
+representation conversions, behaviour after several calls on one object); round four **boundaries and numerics**
+(inclusive/exclusive ends, first / last / only element, N = 0 or 1, largest admissible parameters, int versus float
+arithmetic and overflow, ordering and tie-breaking); round five **domain confusions** (degree vs excess degree, stubs vs
+motifs vs edges, index vs id vs size, edges vs edge ends, ordered vs unordered pairs, probability vs complement, a formula
+outside the case it was derived for); round six **names and labels, iteration order, error handling, repeated use**.
 Each was confirmed here in a scratch worktree (compiles, repository tests of the touched area pass, `demo.py` exits 0 on the
 unchanged tree and 1 with the change) and is kept as `seeded/<id>/{{patch.diff,demo.py,meta.json}}`. `tools/regress.py` applies
 every one of them to a scratch worktree and runs the quick check of the property it breaks: **{len(rows)} of {len(rows)} exit 1 with
